@@ -150,7 +150,8 @@ pub fn encode(st: &State, enc: Enc, layout_seed: u64) -> Vec<u8> {
                 f_set: false,
                 border: st.border,
                 latch: if is128 { st.latch } else { 0 },
-                fe: st.border,
+                // last byte written to port 0xFE: its low bits need not repeat the border field
+                fe: (st.ram_seed >> 24) as u8 & 0x1F,
                 ay: st.ay.map(|(cur, regs)| szx::AyChunk { flags: 2, current: cur, regs }),
                 kempston_joystick: None,
                 mouse: st.mouse.map(|m| if m { 2 } else { 0 }),
@@ -666,7 +667,7 @@ fn encode_with_idle_flags(st: &State, enc: Enc, ay_flags: u8) -> Vec<u8> {
         f_set: false,
         border: s.border,
         latch: if is128 { s.latch } else { 0 },
-        fe: s.border,
+        fe: (s.ram_seed >> 24) as u8 & 0x1F,
         ay: s.ay.map(|(cur, regs)| szx::AyChunk { flags: ay_flags, current: cur, regs }),
         kempston_joystick: None,
         mouse: s.mouse.map(|m| if m { 2 } else { 0 }),
